@@ -101,7 +101,7 @@ PROPS = {
     'C13': dict(
         title='capacity management', level='proof', templates=['l2'],
         k_quick=['q_sub_realloc_fail', 'q_sub_realloc_grow', 'q_sub_realloc_shrink'],
-        k_thorough=['t_sub_realloc', 't_sub_realloc_fail'],
+        k_thorough=['t_sub_realloc', 't_sub_realloc_fail', 't_sub_shrink_to'],
         assumptions=[A_SUB, A_HB, A_DOUBLE, A_CAP, A_ARITH, A_KBOUND,
                      'with_capacity(n) takes n insertions without capacity change: relies on hashbrown (no tombstones => len < requested => has_room); not decided here',
                      'whole-history growth bound is the inductive consequence of the per-call clause cap_after_growth < max(4*len, 8)'],
